@@ -1,8 +1,62 @@
-import IwModel.Model.Txt
+import IwModel.Lemmas.Txt
 /-! # C17 — text-consuming functions are memory-safe on any input and depend only on it
 
-Property theorems only; helper lemmas live in `IwModel/Lemmas/Txt*.lean`. -/
+Property theorems only; helper lemmas live in `IwModel/Lemmas/Txt*.lean`.
+
+The models (`IwModel/Model/Txt.lean`) address their buffers by index and answer `.oob` (`none`) as soon
+as they touch a cell that is not part of the buffer they were given, so "no access outside the
+buffers" is `result ≠ .oob`; they are total functions accepted by Lean's termination checker, so
+every run terminates; and they are pure functions of the bytes, which is the model-level form of
+"depends only on the input" (the tie checks the implementation against them after an adversarial
+history). -/
 namespace IwModel.C17
 open IwModel IwModel.Txt
+
+/-- `HasNul buf i`: the memory the caller owns holds a NUL at or behind index `i` (a C string starts at `i`). -/
+abbrev HasNul (buf : Bytes) (i : Nat) : Prop := ∃ n, i ≤ n ∧ buf[n]? = some 0
+
+/-- **`_jbl_unescape_json_string` never reads outside the string** — for every buffer content, every
+    quote byte, every output size and every start state: as long as the text is NUL-terminated
+    somewhere, no run (length pass or fill pass) touches a cell behind the terminator. This covers
+    truncated `\\u` escapes, a lone high surrogate at the end, a backslash as last byte, etc. -/
+theorem unescape_safe (buf : Bytes) (q dlen i d : Nat) (out : Bytes) (h : HasNul buf i) :
+    unesc buf q dlen i d out ≠ .oob :=
+  unesc_safe buf q dlen i d out h
+
+/-- **Length pre-pass then fill pass**: run as the parser runs them (length pass with an empty
+    buffer, then the fill pass into `len` bytes), the two passes never leave the buffers, the fill
+    pass returns exactly the length the first pass announced, it stores exactly `len` bytes (so the
+    `len + 1` byte block the caller allocated is filled up to the byte that receives the terminator and
+    not one byte more), and the end position it reports still has the terminator ahead of it. -/
+theorem unescape_two_pass (buf : Bytes) (q i : Nat) (h : HasNul buf i) :
+    unescTwoPass buf q i ≠ .oob ∧
+    ∀ len endp out len2, unescTwoPass buf q i = .ok (len, endp, out, len2) →
+      len2 = len ∧ out.length = len ∧ HasNul buf endp ∧ i < endp :=
+  unescTwoPass_spec buf q i h
+
+/-- The value returned and the end position of a run do not depend on the output buffer (size or
+    prior content): every run has the shape of the length pass. -/
+theorem unescape_shape_indep (buf : Bytes) (q dlen dlen' i d : Nat) (out out' : Bytes) :
+    shape (unesc buf q dlen i d out) = shape (unesc buf q dlen' i d out') := by
+  rw [unesc_shape buf q dlen i d out, unesc_shape buf q dlen' i d out']
+
+/-- The bytes stored are the first `min len dlen` output positions, each stored once, in order:
+    nothing is stored at or behind `d + dlen`. -/
+theorem unescape_stores_within (buf : Bytes) (q dlen i : Nat) (r : UOk)
+    (hr : unesc buf q dlen i 0 [] = .ok r) : r.out.length = min r.len dlen :=
+  unesc_out_length buf q dlen i 0 [] (by simp) r hr
+
+/-- corollary for a C string `s` (the bytes of `s` may be anything, even contain NULs) -/
+theorem unescape_cstring_safe (s : Bytes) (q : Nat) : unescTwoPass (s ++ [0]) q 0 ≠ .oob :=
+  (unescape_two_pass (s ++ [0]) q 0 ⟨s.length, Nat.zero_le _, by simp⟩).1
+
+/-- **`_jbl_parse_json_key` never reads outside the text**, whatever precedes or follows the key. -/
+theorem parse_key_safe (buf : Bytes) (i : Nat) (h : HasNul buf i) : parseKey buf i ≠ .oob :=
+  parseKey_safe buf i h
+
+/-- non-vacuity: the hypothesis holds for an ordinary string, and the instrumentation is live —
+    without a terminator the model does report the out-of-range read. -/
+example : HasNul [97, 34, 0] 0 := ⟨2, by decide, rfl⟩
+example : unesc [92] 34 0 0 0 [] = .oob := by rw [unesc]; rfl   -- a backslash as the last byte of a block
 
 end IwModel.C17
